@@ -270,7 +270,7 @@ Qed.
 
 Lemma trim_zeros_snoc s : ~ In 0 s -> trim_zeros (s ++ [0]) = s.
 Proof.
-  intros H. unfold trim_zeros.
+  intros H. unfold trim_zeros. rewrite !frev_rev.
   assert (E : trim_left (s ++ [0]) = s ++ [0] \/ s = []).
   { destruct s as [|c s]; [right; reflexivity|left]. cbn. destruct c; [cbn in H; tauto|reflexivity]. }
   destruct E as [E| ->]; [|reflexivity].
@@ -281,7 +281,7 @@ Qed.
 Lemma utf16_roundtrip s :
   forallb valid_scalar s = true -> ~ In 0 s -> parse_utf16 (marshal_utf16 s) = Ret s.
 Proof.
-  intros Hv H0. unfold parse_utf16. rewrite utf16_decode_marshal by exact Hv.
+  intros Hv H0. unfold parse_utf16. rewrite frev_rev. rewrite utf16_decode_marshal by exact Hv.
   rewrite rev_app_distr. cbn [rev app]. rewrite trim_zeros_snoc by exact H0. reflexivity.
 Qed.
 
@@ -289,7 +289,7 @@ Qed.
 Lemma utf16_no_terminator bs :
   (forall s, utf16le_decode bs <> s ++ [0]) -> exists e, parse_utf16 bs = Err e.
 Proof.
-  intros H. unfold parse_utf16. destruct (rev (utf16le_decode bs)) as [|c r] eqn:E.
+  intros H. unfold parse_utf16. rewrite frev_rev. destruct (rev (utf16le_decode bs)) as [|c r] eqn:E.
   - eexists; reflexivity.
   - destruct c; [|eexists; reflexivity].
     exfalso. apply (H (rev r)). rewrite <- (rev_involutive (utf16le_decode bs)), E. reflexivity.
